@@ -257,16 +257,18 @@ type PXPath struct {
 }
 
 type PXConfig struct {
-	MaxDepth     int
-	MaxVisits    int
-	MaxPaths     int
-	LocalWrites  bool                       // writes into path-local buffers are (also) reported as write events
-	Bounds       bool                       // index and slice expressions are reported as events (P-BOUNDS)
-	MaxIndex     int                        // paths that touch element MaxIndex (or beyond) of a slice of unknown contents are not explored (0: no bound)
-	Opaque       func(f *ssa.Function) bool // do not inline; record a call event
-	Assume       []Lit                      // facts taken as given at entry (a case of a case split made by the rule)
-	SkipErrEdges bool                       // do not follow the failure edge of an error test
-	KeepEdge     func(l Lit) bool           // override: follow even if it is an error edge
+	MaxDepth      int
+	MaxVisits     int
+	MaxPaths      int
+	LocalWrites   bool                       // writes into path-local buffers are (also) reported as write events
+	Bounds        bool                       // index and slice expressions are reported as events (P-BOUNDS)
+	MaxDetermined int                        // iterations of a loop whose bound is determined on the path that are free (default 64)
+	MaxIndex      int                        // paths that touch element MaxIndex (or beyond) of a slice of unknown contents are not explored (0: no bound)
+	Opaque        func(f *ssa.Function) bool // do not inline; record a call event
+	Assume        []Lit                      // facts taken as given at entry (a case of a case split made by the rule)
+	Args          []*T                       // parameters bound to given terms (evaluation of a call with constant arguments)
+	SkipErrEdges  bool                       // do not follow the failure edge of an error test
+	KeepEdge      func(l Lit) bool           // override: follow even if it is an error edge
 }
 
 type pxState struct {
@@ -499,6 +501,10 @@ func (c *Ctx) Paths(fn *ssa.Function, cfg PXConfig) ([]*PXPath, bool) {
 				name = fmt.Sprintf("p%d", i-1)
 			}
 		}
+		if i < len(cfg.Args) && cfg.Args[i] != nil {
+			fr.args = append(fr.args, cfg.Args[i]) // evaluation with given (constant) arguments
+			continue
+		}
 		fr.args = append(fr.args, &T{Op: "param", Aux: name, Typ: p.Type()})
 	}
 	r.block(st, fr, fn.Blocks[0], nil, func(st *pxState, _ *pxFrame, res []*T, end string) {
@@ -716,7 +722,11 @@ func (r *pxRun) branch(st *pxState, fr *pxFrame, b *ssa.BasicBlock, cond *T, don
 				}
 			}
 		}
-		if hk := fmt.Sprintf("!%d.%d", fr.id, b.Index); isHeader && st.visits[hk] < 64 {
+		capDet := 64
+		if r.cfg.MaxDetermined > 0 {
+			capDet = r.cfg.MaxDetermined
+		}
+		if hk := fmt.Sprintf("!%d.%d", fr.id, b.Index); isHeader && st.visits[hk] < capDet {
 			st.visits[hk]++
 		}
 		r.block(st, fr, b.Succs[i], b, done)
